@@ -276,10 +276,21 @@ def rule_n(ctx):
             bodies = [fn.body]
         for body in bodies:
             arith = _item_arith(body, item)
+            mods = [x for x in A.walk_stmts(body) if (isinstance(x, ast.BinOp) and isinstance(x.op, ast.Mod) and A.is_name(x.left, item))
+                    or (isinstance(x, ast.AugAssign) and isinstance(x.op, ast.Mod) and A.is_name(x.target, item))]
+            if mods:
+                # wrapping with % is total - legitimate only for a stage of infinite length (its __len__ only raises)
+                lm = cls.resolve('__len__')
+                finite = lm is not None and lm.is_function and not K.only_raises(lm.node)
+                if finite:
+                    rep.ob('N', K.key(cls, '__getitem__', 'index-not-wrapped-with-modulo'), False, mods[0],
+                           'the integer index is wrapped with %% (`%s`) although the stage has a finite length: an index below '
+                           '-len(self) wraps around again instead of raising IndexError' % A.short(mods[0], 40))
             if not arith:
                 continue
             n_arith += 1
-            # modulo translation (cycle) is total
+            # modulo translation is total - legitimate only for a stage of infinite length (its __len__ only raises);
+            # a finite stage that wraps with % answers ds[-len-1] instead of raising IndexError
             if any(isinstance(x, ast.BinOp) and isinstance(x.op, ast.Mod) and A.is_name(x.left, item)
                    for x in A.walk_stmts(body)) and not any(
                     not isinstance(x.op if isinstance(x, ast.BinOp) else x.op, ast.Mod) for x in arith):
